@@ -368,6 +368,9 @@ def post_run(ctx, rows, res):
 
 # ----------------------------------------------------------------------- C05
 BUNDLED = ("EDF", "FIFO", "LSF", "ILP", "TetriSchedGurobi", "TetriSchedCPLEX", "Clockwork")
+# the harness-owned work-conserving policy with a decision latency ("WC") is *measured* against the same
+# clause (probes c05_wc_*), never asserted: the property names EDF, FIFO and LSF
+WORK_CONSERVING = ("EDF", "FIFO", "LSF", "WC")
 
 
 def feasible_task(ctx, s):
@@ -383,7 +386,14 @@ def feasible_task(ctx, s):
 def post_c05(ctx, parsed, res):
     world = ctx.world
     pol = world["policy"]
-    bundled = pol["name"] in BUNDLED
+    bundled = pol["name"] in BUNDLED or pol["name"] == "WC"
+    measure_only = pol["name"] == "WC"
+
+    def report(oracle, detail, cause):
+        if measure_only:
+            ctx.probe("c05_wc_" + oracle)
+        else:
+            ctx.violate("C05", oracle, detail, cause)
     timeout = world["sim"]["loop_timeout"]
     if res["outcome"] == "crash":
         if bundled:
@@ -413,17 +423,17 @@ def post_c05(ctx, parsed, res):
     if end_t < timeout:
         for s in ctx.shadows.values():
             if s.state == "RELEASED" and feasible_task(ctx, s):
-                ctx.violate("C05", "ended_with_runnable_work",
+                report("ended_with_runnable_work",
                             f"SIMULATOR_END at {end_t} < timeout {timeout} while {s.uname} is RELEASED "
                             f"and fits the empty cluster", {"policy": pol["name"]})
                 break
             if s.state in ("SCHEDULED", "RUNNING"):
-                ctx.violate("C05", "ended_with_work_in_flight",
+                report("ended_with_work_in_flight",
                             f"SIMULATOR_END at {end_t} < timeout {timeout} while {s.uname} is {s.state}",
                             {"policy": pol["name"], "state": s.state})
                 break
     # work-conserving policies finish feasible work before the timeout
-    if pol["name"] in ("EDF", "FIFO", "LSF") and not pol.get("enforce_deadlines") and \
+    if pol["name"] in WORK_CONSERVING and not pol.get("enforce_deadlines") and \
             not world["flags"]["drop_skipped_tasks"] and not world["faults"].get("cut"):
         if any(g["release"]["type"] == "periodic" for g in world["graphs"]):
             return
@@ -441,7 +451,7 @@ def post_c05(ctx, parsed, res):
             node = ctx.nodes[s.base][s.node]
             prof = world["profiles"][node["profile"]]
             rt = max(st["runtime"] for st in prof["strategies"])
-            need += rt * (100 + v) // 100 + 1 + freq + delay + 2
+            need += rt * (100 + v) // 100 + 1 + freq + delay + 2 + 2 * max(pol.get("runtime", 0), 0)
         for tg in ctx.built.workload.task_graphs.values():
             for t in tg.get_nodes():
                 rt_ = _us(t.release_time)
@@ -453,7 +463,7 @@ def post_c05(ctx, parsed, res):
         ctx.probe("c05_completeness_evaluated")
         if end_t >= timeout:
             inv = ctx.invocations
-            ctx.violate("C05", "feasible_work_hit_timeout",
+            report("feasible_work_hit_timeout",
                         f"feasible world under {pol['name']} ran until the timeout {timeout} "
                         f"(work bound {last_rel + need})",
                         {"all_tasks_done": all(s.state in ("COMPLETED", "CANCELLED") for s in tasks),
@@ -461,12 +471,12 @@ def post_c05(ctx, parsed, res):
                              len(inv) >= 2 and inv[-1]["t"] == inv[-2]["t"]})
         for s in tasks:
             if s.state not in ("COMPLETED", "CANCELLED"):
-                ctx.violate("C05", "feasible_task_not_completed",
+                report("feasible_task_not_completed",
                             f"{s.uname} ended in state {s.state} under {pol['name']} although every task "
                             f"fits the empty cluster", {"policy": pol["name"], "state": s.state})
                 break
             if s.state == "CANCELLED" and not on_untaken_branch(ctx, s):
-                ctx.violate("C05", "feasible_task_cancelled",
+                report("feasible_task_cancelled",
                             f"{s.uname} was cancelled under {pol['name']} without enforcement/drop",
                             {"policy": pol["name"]})
                 break
@@ -630,7 +640,7 @@ def post_c07(ctx, parsed, res):
                 # a policy had cancelled a child before the conditional completed; nothing is
                 # left to choose from (a consequence of the cancellation, C06's business)
                 ctx.probe("conditional_children_cancelled_by_policy")
-            elif not (resolve and len(released) == 0):
+            else:
                 ctx.violate("C07", "not_exactly_one_branch",
                             f"conditional {cnode}@{graph} released {released} (children {kids})",
                             {"released": len(released), "resolve_at_submission": bool(resolve)})
